@@ -32,12 +32,13 @@ def run(c):
     return c.finish(
         rule="random pipeline configurations from the directive grammar (source/source_in/default_source, destination/destination_in/default_destination, check, modify with "
         "replace_rcpt/replace_sender incl. 1-to-N and local-part rewriting, source_in/destination_in table modules that honour their context and answer after a scripted latency "
-        "(virtual time; 2-4 tables sharing keys with pairwise different latencies = every answering order relative to the declaration order), deliver_to with 1-2 targets, reject, reroute nested up to depth 2, plus every kind of malformed configuration) "
+        "(virtual time; 2-4 tables sharing keys with pairwise different latencies = every answering order relative to the declaration order), deliver_to with 1-2 targets, reject in every documented form (no argument / basic code / + enhanced code / + description; every 4xx and 5xx basic code, enhanced class 4 or 5 chosen "
+        "independently of the basic code's class, 1-3 digit subject/detail numbers, 21 descriptions) and with ~40 kinds of malformed arguments, reroute nested up to depth 2, plus every kind of malformed configuration) "
         "rendered to text, read by the real cfgparser and msgpipeline.New; 2-8 envelopes each (1-3 recipients) over an alphabet of 4 local parts x 4 domains in case / NFC / NFD / "
         "A-label spellings, plus (a few per cent of all addresses, rules, table keys and replacement values) 12 unusual but valid domains (underscore, IPv4/IPv6 address literals, '--' in positions 3-4, "
         "leading digit, all-numeric, single label, leading/trailing hyphen, ZWJ, sharp s with its A-label) and 5 unusual local parts (+tag, apostrophe, underscore, digits, '=~'), 5 local parts and 5 domains with letters for which case mapping and normalisation interact "
         "(U+0130 / I+U+0307, U+212B, Greek with tonos / oxia, capital sigma at the end of a word, U+01F0; each in 2-6 spellings incl. A-labels), quoted local parts, null sender, "
-        "postmaster and malformed addresses; load verdict, MAIL/RCPT replies and the ordered hand-offs to recording targets are compared with the Lean "
+        "postmaster and malformed addresses; load verdict, MAIL/RCPT replies (basic code, enhanced code, description) and the ordered hand-offs to recording targets are compared with the Lean "
         "model; an oracle written from the documentation (with its own statement of the lookup-key normalisation, independent of framework/address and framework/dns), a completeness walk over the loaded blocks and spelling-variant envelopes form the monitor; distinct = distinct cases",
         explanation="theorems over all configurations of any nesting depth, all envelopes and all normalisation functions; model tied to config.go / msgpipeline.go / replace_addr.go by differential runs",
         search=search,
